@@ -5,6 +5,10 @@ import XModel.MadxParen
 Model: `XModel/Madx.lean`.  `evalI ops false` is `MadxEval` over plain variables (the callbacks are
 Python's operators), `evalI ops true` is the value of the deferred expression the same callbacks build
 over refs (true division is a guarded class: C04).  The value algebra `ops` is a parameter.
+By design the two evaluators are ONE recursion with a flag at the division node: that the deferred path (operator
+callbacks building reference nodes which are evaluated later) computes what the immediate path computes node by node
+is C04's subject and Tie A's obligation for `MadxEval` (every grammar alias is bound to the Python operator of the same
+name); `C19_agree` then isolates the only intended difference, the NaN guard.
 -/
 namespace Properties.C19
 open Madx
